@@ -980,3 +980,41 @@ def rule_argument_checked_first(ctx, rep, rid: str, families: Tuple[str, ...]) -
             rep.bad(rid, key, f"{f.qual} can `{short(r, 30)}` (line {r.lineno}) without having passed the argument test `{short(g.test, 50)}` (line {g.lineno}): {why}", f"{f.module.rel}:{r.lineno}")
     if n == 0:
         raise AnalysisError(f"{rid}: no listed native in families {families}")
+
+
+# natives whose first argument must not be a regular expression (IsRegExp -> TypeError)
+NO_REGEXP_ARGUMENT = ("startsWith", "endsWith", "includes")
+
+
+def rule_regexp_argument_refused(ctx, rep, rid: str) -> None:
+    """String.prototype.startsWith / endsWith / includes throw a TypeError when the search value is a RegExp, before
+    anything is converted: `'abc'.includes(/b/)` must not search for the text "/b/"."""
+    rep.rule(rid, "in String.prototype.startsWith, endsWith and includes a `raise JSTypeError` under an isinstance test of the first argument against the RegExp class dominates every return", floor=3)
+    vmcls = ctx.facts.vm_dispatcher()[0].cls
+    builder = ctx.tree.find_method(vmcls, ctx.facts.family_methods().get("_make_string_method", "_make_string_method"))
+    if builder is None:
+        raise AnalysisError(f"{rid}: the String method table builder was not found")
+    table = {}
+    for d in builder.own_nodes():
+        if isinstance(d, ast.Dict):
+            for k, v in zip(d.keys, d.values):
+                if isinstance(k, ast.Constant) and isinstance(v, ast.Name):
+                    table[k.value] = v.id
+    for js in NO_REGEXP_ARGUMENT:
+        if js not in table:
+            continue  # not implemented: nothing to judge
+        f = next((g for g in ctx.tree.funcs if g.parent is builder and g.name == table[js]), None)
+        if f is None:
+            raise AnalysisError(f"{rid}: closure of {js} not found")
+        key = f"_make_string_method.{js}:regexp-refused"
+        guards = [t for t in f.own_nodes() if isinstance(t, ast.If) and "JSRegExp" in norm(t.test) and "isinstance" in norm(t.test) and any(isinstance(b, ast.Raise) and b.exc is not None and "TypeError" in norm(b.exc) for b in t.body)]
+        if not guards:
+            rep.bad(rid, key, f"{f.qual} converts its search argument to text whatever it is: `'abc'.{js}(/b/)` searches for \"/b/\" where ECMAScript throws a TypeError", f.loc)
+            continue
+        cfg = ctx.facts.cfg(f)
+        gn = {cfg.node_of_stmt[id(g)].id for g in guards if id(g) in cfg.node_of_stmt}
+        late = [r for r in cfg.nodes if r.ast is not None and isinstance(r.ast, ast.Return) and cfg.path_avoiding(cfg.entry.id, lambda nd, r=r: nd.id == r.id, gn, None) is not None]
+        if late:
+            rep.bad(rid, key, f"{f.qual} can return (line {late[0].line}) without having tested its argument for a regular expression", f"{f.module.rel}:{late[0].line}")
+        else:
+            rep.ok(rid, key)
